@@ -224,8 +224,12 @@ func (server *SugarDB) setValues(ctx context.Context, entries map[string]interfa
 
 	for key, value := range entries {
 		expireAt := time.Time{}
-		if _, ok := server.store[database][key]; ok {
+		if oldData, ok := server.store[database][key]; ok {
 			expireAt = server.store[database][key].ExpireAt
+			// The entry that is being replaced no longer counts towards the memory used.
+			if oldMem, err := oldData.GetMem(); err == nil {
+				server.memUsed -= oldMem + int64(unsafe.Sizeof(key)) + int64(len(key))
+			}
 			// A value written over an entry that has already expired is a new key: it must not inherit the old expiry time.
 			if expireAt != (time.Time{}) && expireAt.Before(server.clock.Now()) {
 				expireAt = time.Time{}
